@@ -7,6 +7,7 @@ import (
 	"strconv"
 	"strings"
 
+	"github.com/koestler/go-victron/veproduct"
 	"github.com/koestler/go-victron/veregister"
 )
 
@@ -216,4 +217,99 @@ func runRegList() {
 		}()
 		fmt.Fprintln(out, res)
 	}
+}
+
+// runRegListTwin: gvrun reglisttwin.  Two lists obtained by two separate lookups of the same product are two lists:
+// appends to the one and then to the other (which fit whatever spare capacity the lists came with) leave each equal to
+// its own four plain sequences -- base followed by its own block.  Prints TWIN-FAIL lines and a summary.
+func runRegListTwin() {
+	alpha := veregister.NewRegisterList()
+	veregister.AppendBmv(&alpha)
+	veregister.AppendSolar(&alpha)
+	veregister.AppendInverter(&alpha)
+	fpN := func(rs []veregister.NumberRegisterStruct) string {
+		p := make([]string, len(rs))
+		for i, r := range rs {
+			p[i] = regFp(r)
+		}
+		return strings.Join(p, ",")
+	}
+	fpE := func(rs []veregister.EnumRegisterStruct) string {
+		p := make([]string, len(rs))
+		for i, r := range rs {
+			p[i] = regFp(r)
+		}
+		return strings.Join(p, ",")
+	}
+	fpT := func(rs []veregister.TextRegisterStruct) string {
+		p := make([]string, len(rs))
+		for i, r := range rs {
+			p[i] = regFp(r)
+		}
+		return strings.Join(p, ",")
+	}
+	prods := []veproduct.Product{veproduct.BMV700, veproduct.BMV712Smart, veproduct.SmartShunt500A_50mV, veproduct.SmartSolarMPPT100_30,
+		veproduct.SmartSolarMPPT75_15, veproduct.BlueSolarMPPT75_10, veproduct.SmartSolarMPPT250_100, veproduct.BlueSolarMPPT75_50,
+		veproduct.PhoenixInverter12V250VA230V, veproduct.PhoenixInverterSmart24V5000VA230Vac64k}
+	n, fails := 0, 0
+	for _, p := range prods {
+		for k := 1; k <= 4; k++ {
+			for off := 0; off < 3; off++ {
+				func() {
+					defer func() {
+						if r := recover(); r != nil {
+							fails++
+							fmt.Fprintf(out, "TWIN-FAIL product=%#x panic: %v\n", uint16(p), r)
+						}
+					}()
+					a, _ := veregister.GetRegisterListByProduct(p)
+					b, _ := veregister.GetRegisterListByProduct(p)
+					baseN := append([]veregister.NumberRegisterStruct{}, a.NumberRegisters...)
+					baseT := append([]veregister.TextRegisterStruct{}, a.TextRegisters...)
+					baseE := append([]veregister.EnumRegisterStruct{}, a.EnumRegisters...)
+					blkAN := append([]veregister.NumberRegisterStruct{}, alpha.NumberRegisters[off*7:off*7+k]...)
+					blkBN := append([]veregister.NumberRegisterStruct{}, alpha.NumberRegisters[40+off : 40+off+k]...)
+					blkAE := append([]veregister.EnumRegisterStruct{}, alpha.EnumRegisters[off:off+k]...)
+					blkBE := append([]veregister.EnumRegisterStruct{}, alpha.EnumRegisters[10+off : 10+off+k]...)
+					blkAT := append([]veregister.TextRegisterStruct{}, alpha.TextRegisters[0:1]...)
+					blkBT := append([]veregister.TextRegisterStruct{}, alpha.TextRegisters[1:2]...)
+					if off == 2 {
+						veregister.AppendSolarLoadData(&a) // the block a caller of the factory is most likely to add
+						blkAN = nil
+						la := veregister.NewRegisterList()
+						veregister.AppendSolarLoadData(&la)
+						blkAN = append(blkAN, la.NumberRegisters...)
+						blkAE = append([]veregister.EnumRegisterStruct{}, la.EnumRegisters...)
+						blkAT = nil
+					} else {
+						a.AppendNumberRegisterStruct(blkAN...)
+						a.AppendEnumRegisterStruct(blkAE...)
+						a.AppendTextRegisterStruct(blkAT...)
+					}
+					b.AppendNumberRegisterStruct(blkBN...)
+					b.AppendEnumRegisterStruct(blkBE...)
+					b.AppendTextRegisterStruct(blkBT...)
+					check := func(which, kind, got, want string) {
+						n++
+						if got != want {
+							fails++
+							fmt.Fprintf(out, "TWIN-FAIL product=%#x block=%d variant=%d: the %s sequence of list %s is not its base followed by its own block after appends to the other list of the same product\n", uint16(p), k, off, kind, which)
+						}
+					}
+					check("A", "number", fpN(a.NumberRegisters), fpN(append(append([]veregister.NumberRegisterStruct{}, baseN...), blkAN...)))
+					check("A", "enum", fpE(a.EnumRegisters), fpE(append(append([]veregister.EnumRegisterStruct{}, baseE...), blkAE...)))
+					check("A", "text", fpT(a.TextRegisters), fpT(append(append([]veregister.TextRegisterStruct{}, baseT...), blkAT...)))
+					check("B", "number", fpN(b.NumberRegisters), fpN(append(append([]veregister.NumberRegisterStruct{}, baseN...), blkBN...)))
+					check("B", "enum", fpE(b.EnumRegisters), fpE(append(append([]veregister.EnumRegisterStruct{}, baseE...), blkBE...)))
+					check("B", "text", fpT(b.TextRegisters), fpT(append(append([]veregister.TextRegisterStruct{}, baseT...), blkBT...)))
+					n++
+					if a.Len() != len(baseN)+len(blkAN)+len(baseE)+len(blkAE)+len(baseT)+len(blkAT)+len(a.FieldListRegisters) {
+						fails++
+						fmt.Fprintf(out, "TWIN-FAIL product=%#x block=%d variant=%d: Len of list A\n", uint16(p), k, off)
+					}
+				}()
+			}
+		}
+	}
+	fmt.Fprintf(out, "TWIN-SUMMARY checks=%d failures=%d\n", n, fails)
 }
